@@ -430,3 +430,18 @@ impl fmt::Display for GroupDecodingError {
         }
     }
 }
+
+/// Verification-only re-exports of the crate-private wNAF primitives, so that a
+/// harness can drive every window size. Compiled only with `--cfg pairing_plus_verif`.
+#[cfg(pairing_plus_verif)]
+pub mod verif_hooks {
+    pub fn wnaf_table<G: ::CurveProjective>(table: &mut Vec<G>, base: G, window: usize) {
+        ::wnaf::wnaf_table(table, base, window)
+    }
+    pub fn wnaf_form<S: ::ff::PrimeFieldRepr>(wnaf: &mut Vec<i64>, c: S, window: usize) {
+        ::wnaf::wnaf_form(wnaf, c, window)
+    }
+    pub fn wnaf_exp<G: ::CurveProjective>(table: &[G], wnaf: &[i64]) -> G {
+        ::wnaf::wnaf_exp(table, wnaf)
+    }
+}
